@@ -798,3 +798,45 @@ Proof.
   split; [reflexivity|]. rewrite !distinctfunc_greedy, fold_left_app. cbn [fold_left].
   unfold distinct_step at 1. destruct (existsb _ _); reflexivity.
 Qed.
+
+(* the last element is kept iff no element before it is equal to it (any equals) *)
+Lemma first_occs_from_snoc {A} (eqf : A -> A -> bool) (l : list A) (x : A) : forall before,
+  first_occs_from eqf before (l ++ [x]) =
+  first_occs_from eqf before l ++ (if existsb (fun u => eqf u x) (before ++ l) then [] else [x]).
+Proof.
+  induction l as [|y l IH]; intros before; cbn [app first_occs_from].
+  - rewrite !app_nil_r. reflexivity.
+  - rewrite IH, <- !app_assoc. reflexivity.
+Qed.
+
+Lemma first_occs_snoc {A} (eqf : A -> A -> bool) (l : list A) (x : A) :
+  first_occs eqf [] = [] /\
+  first_occs eqf (l ++ [x]) = first_occs eqf l ++ (if existsb (fun u => eqf u x) l then [] else [x]).
+Proof. split; [reflexivity|]. exact (first_occs_from_snoc eqf l x []). Qed.
+
+(* the segment characterisation determines the result of Trim *)
+Lemma drop_while_all {A} (p : A -> bool) (pre rest : list A) :
+  forallb p pre = true -> drop_while p (pre ++ rest) = drop_while p rest.
+Proof.
+  induction pre as [|y pre IH]; cbn [forallb app drop_while]; [reflexivity|].
+  intros H. apply andb_true_iff in H as [Hy Hp]. rewrite Hy. apply IH. exact Hp.
+Qed.
+
+Lemma trim_segment_unique {A} (p : A -> bool) (l pre r suf : list A) :
+  l = pre ++ r ++ suf -> forallb p pre = true -> forallb p suf = true ->
+  (forall x r', r = x :: r' -> p x = false) -> (forall r' x, r = r' ++ [x] -> p x = false) ->
+  r = trim_ref p l.
+Proof.
+  intros -> Hpre Hsuf Hhead Hlast. unfold trim_ref, drop_while_end.
+  rewrite !rev_app_distr, <- app_assoc. rewrite drop_while_all by (rewrite forallb_rev; exact Hsuf).
+  destruct r as [|x0 r0] using rev_ind.
+  - cbn [rev app]. replace (drop_while p (rev pre)) with (@nil A).
+    + reflexivity.
+    + symmetry. rewrite <- (app_nil_r (rev pre)). rewrite drop_while_all by (rewrite forallb_rev; exact Hpre). reflexivity.
+  - clear IHr0. rewrite rev_app_distr. cbn [rev app drop_while].
+    rewrite (Hlast r0 x0 eq_refl). cbn [rev]. rewrite rev_app_distr, rev_involutive, rev_involutive. cbn [rev app].
+    rewrite <- app_assoc. rewrite drop_while_all by exact Hpre.
+    destruct r0 as [|y r0]; cbn [app drop_while].
+    + rewrite (Hlast [] x0 eq_refl). reflexivity.
+    + rewrite (Hhead y (r0 ++ [x0]) eq_refl). reflexivity.
+Qed.
